@@ -3,7 +3,7 @@
    correspondence harness and by the generated filter table gen/GenSnip.v). *)
 From Coq Require Import ZArith List Bool.
 From Coq Require Import QArith Qcanon.
-From PB Require Import lib.PySlice lib.Arr C14.Model C14.Proofs C14.Reflect C14.Methods C14.Inst C14.Shift C14.Shift2 C14.Grid C14.Rubber C14.Hull
+From PB Require Import lib.PySlice lib.Arr C14.Model C14.Proofs C14.Reflect C14.Methods C14.Inst C14.Shift C14.Shift2 C14.Grid C14.Rubber C14.Hull C14.Affine
   C14.SnipTable gen.GenSnip gen.GenRubber.
 Import ListNotations.
 Open Scope Z_scope.
@@ -150,6 +150,33 @@ Theorem C14_rubberband_lower_hull : forall (n : Z) (x y : Z -> Q) (v : list Z),
   (forall k, 0 <= k < n -> (interp x y (rb_select v) (x k) <= y k)%Q).
 Proof. intros n x y v H1 H2 H3 H4 H5 H6. exact (lower_hull n x y v H1 H2 H3 H4 H5 H6). Qed.
 Print Assumptions C14_rubberband_lower_hull.
+
+(* rubberband hands qhull the points scaled to [0,1] on both axes, (a*x+b, c*y+d) with a, c > 0 (translator:
+   rb_x_scaled / rb_y_scaled).  The orientation predicate is multiplied by a*c > 0, so its sign, hence qhull's
+   contract and the lower-hull vertex set, are those of the unscaled data. *)
+Theorem C14_rubberband_affine_invariant : forall (x y : Z -> Q) (a b c d : Q), (0 < a)%Q -> (0 < c)%Q ->
+  forall p q k : Z,
+  (cross (X x a b) (Y y c d) p q k == a * c * cross x y p q k)%Q /\
+  ((0 <= cross (X x a b) (Y y c d) p q k)%Q <-> (0 <= cross x y p q k)%Q) /\
+  ((0 < cross (X x a b) (Y y c d) p q k)%Q <-> (0 < cross x y p q k)%Q) /\
+  ((X x a b p < X x a b q)%Q <-> (x p < x q)%Q).
+Proof. intros x y a b c d Ha Hc p q k. split; [apply cross_affine|].
+  split; [apply cross_nonneg_iff; auto|]. split; [apply cross_pos_iff; auto|apply X_lt_iff; auto]. Qed.
+Print Assumptions C14_rubberband_affine_invariant.
+
+(* the lower-hull statement with qhull's contract on the SCALED points and the conclusions on the data *)
+Theorem C14_rubberband_lower_hull_scaled : forall (x y : Z -> Q) (a b c d : Q), (0 < a)%Q -> (0 < c)%Q ->
+  forall (n : Z) (v : list Z),
+  (forall i j, 0 <= i -> i < j -> j < n -> (x i < x j)%Q) ->
+  (forall u, In u v -> 0 <= u < n) -> NoDup v -> 3 <= lenZ v ->
+  (forall p k, 0 <= k < n -> (0 <= cross (X x a b) (Y y c d) (vat v p) (vat v (p + 1)%Z) k)%Q) ->
+  (forall p, (0 < cross (X x a b) (Y y c d) (vat v p) (vat v (p + 1)%Z) (vat v (p + 2)%Z))%Q) ->
+  rb_select v = map (w v) (zrange 0 (msteps v + 1)) /\ w v 0 = 0 /\ w v (msteps v) = n - 1 /\
+  (forall j, 0 <= j < msteps v -> w v j < w v (j + 1)) /\
+  (forall j k, 0 <= j < msteps v -> 0 <= k < n -> (seg x y (w v j) (w v (j + 1)%Z) (x k) <= y k)%Q) /\
+  (forall k, 0 <= k < n -> (interp x y (rb_select v) (x k) <= y k)%Q).
+Proof. intros x y a b c d Ha Hc n v. exact (lower_hull_scaled x y a b c d Ha Hc n v). Qed.
+Print Assumptions C14_rubberband_lower_hull_scaled.
 
 Example C14_rubberband_contract_nonvacuous :
   let n := 4 in let x := fun i => inject_Z i in let y := fun i => inject_Z (nthZ 0 [1; 0; 2; 1] i) in
